@@ -305,7 +305,8 @@ def _child_main(sim, proc, blob):
             code = 0 if c is None else (c if isinstance(c, int) else 1)
         except BaseException as e:   # noqa
             code = 1
-            sim.tlog('child-main-exception', exc=type(e).__name__, msg=str(e)[:200], pid_=proc.pid)
+            from .core import _innermost_frame
+            sim.tlog('child-main-exception', exc=type(e).__name__, msg=str(e)[:200], pid_=proc.pid, where=_innermost_frame(e))
             sim.ev('child-exc', proc.name, type(e).__name__)
     finally:
         me.no_async = True
